@@ -1109,7 +1109,7 @@ INHERIT_PROFILE = dict(FUNC_PROFILE, p_fn_name_reuse=0.3, miss=0.1, p_slot_mut=0
 
 PROPS["C04"] = dict(
     exec_oracle=True,
-    profile=dict(FUNC_PROFILE, p_vftable=0.85, vfuncs=(0, 8), p_index=0.45, p_base=0.4, p_impl=0.2), n=(400, 6000), corpus=["common", "C04"],
+    profile=dict(FUNC_PROFILE, p_vftable=0.85, vfuncs=(0, 8), p_index=0.45, p_base=0.4, p_impl=0.2, p_vft_size_miss=0.08), n=(400, 6000), corpus=["common", "C04"],
     aspects=["verdict", "fields", "field_types", "accessor", "body_vftable", "fn_sig", "methods", "items"],
     monitors=[mon_c04],
     nontrivial=lambda res: res.hv[0] == "ok" and res.case.get("exp") and any(
